@@ -487,8 +487,20 @@ func checkC17(p *Prog, r *Report) {
 			for _, x := range valueRoots(ci.Common().Args[k], func(n string) bool {
 				return strings.HasSuffix(strings.SplitN(n, "[", 2)[0], "maps.Clone")
 			}) {
+				nested := false
+				if "field" == x.Kind && nil != x.Base {
+					/* The table kept in a type of its own which the
+					Converter holds in that field (filters.m). */
+					if bf, _ := fieldAddrOf(x.Base); nil != bf && bf == filtersF {
+						nested = true
+					}
+					if bf, _ := loadedField(x.Base); nil != bf && bf == filtersF {
+						nested = true
+					}
+				}
 				switch {
 				case "field" == x.Kind && x.Field == filtersF:
+				case nested:
 				default:
 					okk = false
 					why = append(why, x.String())
